@@ -3,5 +3,8 @@ import subprocess, os
 
 def run(pid, tier, seed, cfg, args):
     here = os.path.dirname(os.path.dirname(os.path.abspath(__file__)))
-    p = subprocess.run(["python3-vt", os.path.join(here, "tools", "mir_presence.py"), tier])
+    env = dict(os.environ)
+    if getattr(args, "no_evidence", False):
+        env["VERIF_NO_EVIDENCE"] = "1"
+    p = subprocess.run(["python3-vt", os.path.join(here, "tools", "mir_presence.py"), tier], env=env)
     return p.returncode
